@@ -4,6 +4,7 @@ package main
 // Patterns are regular expressions over function keys (package.(Recv).Name).
 
 import (
+	"fmt"
 	"regexp"
 	"sort"
 	"strconv"
@@ -162,17 +163,25 @@ func ruleE5(p *Program, c *Check, min int) {
 		}
 		c.Decide(res.OK, rule, sp.Key, construct, p.fpos(sp.Code), detail)
 	}
+	// anchors without a directly comparable counterpart (helper renamed, removed, inlined or with a changed
+	// interface; reference dropped because a type it uses changed): they are covered through their callers by
+	// inlining, not reported as violations. The minimum instance count of the rule guards against vacuity.
+	var unmatched []string
 	sort.Strings(missing)
 	for _, k := range missing {
 		if anchoredIn(c.Property, k) {
-			c.Fail(rule, k, "value-graph", "?", "the anchored function no longer exists under this name/receiver: its reference implementation cannot be matched")
+			unmatched = append(unmatched, k)
 		}
 	}
 	for _, d := range p.Drifted {
-		k := driftKey(d)
-		if anchoredIn(c.Property, k) {
-			c.Fail(rule, k, "value-graph", "?", "the reference implementation no longer type-checks against the working tree (an interface it relies on changed): the formula cannot be matched")
+		if k := driftKey(d); anchoredIn(c.Property, k) {
+			unmatched = append(unmatched, k+" (reference no longer type-checks)")
 		}
+	}
+	if len(unmatched) > 0 {
+		c.Extra["unmatched_anchors"] = unmatched
+		fmt.Printf("NOTE property=%s %d anchored functions have no directly comparable counterpart any more (compared through their callers): %s\n",
+			c.Property, len(unmatched), trunc(strings.Join(unmatched, ", "), 400))
 	}
 	ruleGlobals(p, c)
 }
